@@ -6,6 +6,8 @@ inductive Ty where
   | unit | bool | int | nat | mutez | timestamp | string | bytes | address | chainId
   /-- `never` (no values), `key_hash` and `key` (opaque base58 text, like `address`) -/
   | never | keyHash | key
+  /-- `contract t` (a handle on an entrypoint of type `t`) and `operation` -/
+  | contract (t : Ty) | operation
   | option (t : Ty)
   | or (l r : Ty)
   | pair (l r : Ty)
@@ -37,6 +39,12 @@ mutual
     /-- elements in ascending order -/
     | set (t : Ty) (xs : List Val)
     | lam (a b : Ty) (body : Instr)
+    /-- `contract t`: the address text, followed by `%entrypoint` unless the entrypoint is `default` -/
+    | contract (t : Ty) (s : List Nat)
+    /-- internal operations (`OperationType.content`): a transaction to `dest` / `ep` with parameter `param : pty`, … -/
+    | opTransfer (source dest ep : List Nat) (amount : Int) (param : Val) (pty : Ty)
+    | opDelegate (source : List Nat) (delegate : Option (List Nat))
+    | opEmit (source tag : List Nat) (ty : Ty) (payload : Val)
   inductive Instr where
     | seq (is : List Instr)
     | DROP | DROPN (n : Nat) | DUP | DUPN (n : Nat) | SWAP | DIG (n : Nat) | DUG (n : Nat)
@@ -59,6 +67,11 @@ mutual
     /- extension 2, phase A: `never`, the int / nat ↔ bytes conversions (`INT` also takes `bytes`), voting power of a
     delegate, hash of a public key -/
     | NEVER | NAT | BYTES | VOTING_POWER | HASH_KEY
+    /- phase C: contracts and operations.  `CONTRACT %ep t`; `SELF %ep` carries the type `t` of that entrypoint of the
+    running contract's parameter (what type checking against the parameter gives — the elaborated instruction);
+    `EMIT %tag t` -/
+    | ADDRESS | IMPLICIT_ACCOUNT | CONTRACT (t : Ty) (ep : List Nat) | SELF (ep : List Nat) (t : Ty)
+    | TRANSFER_TOKENS | SET_DELEGATE | EMIT (tag : List Nat) (t : Ty)
 end
 
 instance : Inhabited Val := ⟨.unit⟩
@@ -176,5 +189,25 @@ def typeOf : Val → Ty
   | .map k v _ => .map k v
   | .set t _ => .set t
   | .lam a b _ => .lambda a b
+  | .contract t _ => .contract t
+  | .opTransfer .. | .opDelegate .. | .opEmit .. => .operation
+
+/-! Address texts: `KT1…` / `tz1…`, optionally followed by `%entrypoint` (37 = `%`); no entrypoint means `default`. -/
+def defaultEp : List Nat := [100, 101, 102, 97, 117, 108, 116]      -- "default"
+
+/-- the address part of an address text (up to the first `%`) -/
+def addrOf (s : List Nat) : List Nat := s.takeWhile (· != 37)
+
+/-- the entrypoint an address text names (`default` when there is none) -/
+def epOf (s : List Nat) : List Nat :=
+  match s.dropWhile (· != 37) with
+  | [] => defaultEp
+  | _ :: e => if e = [] then defaultEp else e
+
+/-- the text of address `a` with entrypoint `e` (`%default` is not written) -/
+def mkAddr (a e : List Nat) : List Nat := if e = defaultEp then a else a ++ 37 :: e
+
+/-- an implicit account: the address text starts with `tz` -/
+def isImplicit (a : List Nat) : Bool := a.take 2 == [116, 122]
 
 end Interp
